@@ -76,7 +76,11 @@ ClauseHolds(k) ==
                                          ELSE Lv(Level(M, T.cands[i][1])) = T.cands[i][4]
     [] T.kind = "agree" /\ k = 4 -> LET M == Mod IN \A r \in DOMAIN T.pwcounts :
                                        T.pwcounts[r][2] = Cardinality({ i \in DOMAIN T.train : Lv(Level(M, T.train[i])) = T.pwcounts[r][1] })
-    [] T.kind = "keyspace" /\ k = 1 -> LET M == Mod IN \A i \in DOMAIN T.rows : T.rows[i][2] = Keyspace(M, T.rows[i][1])
+    [] T.kind = "keyspace" /\ k = 1 -> T.rows = <<>> \/
+                                          LET M == Mod                       \* KeyspaceDP = Keyspace: MC_Omen, KeyspaceDPIsKeyspace
+                                              mx == CHOOSE m \in { T.rows[i][1] : i \in DOMAIN T.rows } : \A i \in DOMAIN T.rows : T.rows[i][1] <= m
+                                              ly == Layers(M, mx)
+                                          IN \A i \in DOMAIN T.rows : T.rows[i][2] = KeyspaceFrom(M, ly, T.rows[i][1])
     [] T.kind = "keyspace" /\ k = 2 -> \A i \in DOMAIN T.rows : T.rows[i][3] = -1 \/ T.rows[i][3] = T.rows[i][2]
     [] T.kind = "keyspace" /\ k = 3 -> \A i \in DOMAIN T.rows : T.rows[i][4] = 1
     [] T.kind = "tables" /\ k = 1 -> /\ \A r \in DOMAIN T.ipc : T.ipc[r][2] = IpTally(T.ipc[r][1])
